@@ -202,7 +202,7 @@ def ctrl(ctx):
         return st
     cl = K.check_function(I, "gmm.e_step", lambda: ([G.mk_data(), G.mk_gmm(I)], {}), wrong, G.facts(), "ctl")
     bad = [c for c in cl if c.status == "refuted"]
-    return [Clause("C02.control.sum_pxx-wrong", "refuted" if bad else "discharged", "npsym", "spec with sum_pxx := sum_px")]
+    return [Clause("C02.control.sum_pxx-wrong", "refuted" if bad else ("discharged" if cl and all(c.status == "discharged" for c in cl) else "undecided"), "npsym", "spec with sum_pxx := sum_px")]
 
 
 GROUPS = [guard(estep_post), guard(resp_lemmas), guard(add_post), guard(split_lemma), guard(transform_post)]
